@@ -44,11 +44,11 @@ theorem parkTree_nall (hP : QP P) (h : NAll P ts.nodes) (q : ScqId) (w : WId) : 
   · exact h.parkW hP _ _ _
   · exact h
 
-theorem incOps_nall (hP : QP P) (h : NAll P ts.nodes) (t : Task) (k : WKey) : NAll P (ts.incOps t k).nodes :=
-  NAll.foldl _ (fun _ _ hb => hb.incExec hP _ _ _ _) _ _ h
+theorem incOps_nall (hP : QP P) (hR : RP ts.prioOf P) (h : NAll P ts.nodes) (t : Task) (k : WKey) : NAll P (ts.incOps t k).nodes :=
+  NAll.foldl _ (fun _ _ hb => hb.incExecR hP hR _ _ _ _ _) _ _ h
 
-theorem decOps_nall (hP : QP P) (h : NAll P ts.nodes) (t : Task) (k : WKey) : NAll P (ts.decOps t k).nodes :=
-  NAll.foldl _ (fun _ _ hb => hb.decExec hP _ _ _ _) _ _ h
+theorem decOps_nall (hP : QP P) (hR : RP ts.prioOf P) (h : NAll P ts.nodes) (t : Task) (k : WKey) : NAll P (ts.decOps t k).nodes :=
+  NAll.foldl _ (fun _ _ hb => hb.decExecR hP hR _ _ _ _ _) _ _ h
 
 theorem clearLast_nall (hP : QP P) (h : NAll P ts.nodes) (q : ScqId) (w : WId) : NAll P (ts.clearLast q w).nodes := by
   show NAll P (match ts.lastOf q w with | some p => clearLastN ts.nodes q p | none => ts.nodes)
@@ -65,9 +65,9 @@ theorem createOps_nall (hP : QP P) (h : NAll P ts.nodes) (t : Task) : NAll P (ts
 theorem create_nall (hP : QP P) (h : NAll P ts.nodes) (q : ScqId) (p : List Nat) : NAll P (ts.create q p).nodes :=
   h.getOrCreate hP _ _ _
 
-theorem assignTree_nall (hP : QP P) (h : NAll P ts.nodes) (w : Worker) (t : Task) (r : Nat) :
+theorem assignTree_nall (hP : QP P) (hR : RP ts.prioOf P) (h : NAll P ts.nodes) (w : Worker) (t : Task) (r : Nat) :
     NAll P (ts.assignTree w t r).nodes :=
-  clearLast_nall hP (incOps_nall hP h t (some w.id)) w.scq w.id
+  clearLast_nall hP (incOps_nall hP hR h t (some w.id)) w.scq w.id
 
 theorem dropScqTree_nall (h : NAll P ts.nodes) (q : ScqId) : NAll P (ts.dropScqTree q).nodes := h.filter _
 
@@ -113,8 +113,8 @@ theorem QB.deqOps {b : Nat} {ts : TState} (h : QB b ts) (t : Task) : QB b (ts.de
 theorem QB.detachTree {b : Nat} {ts : TState} (h : QB b ts) (t : Task) (bw : Bool) : QB b (ts.detachTree t bw) := by
   unfold TState.detachTree
   split
-  · exact decOps_nall (qin_qp _) (QB.deqOps (incOps_nall (qin_qp _) h t none) t) t none
-  · exact decOps_nall (qin_qp _) (setLast_nall (qin_qp _) h _ _ _ _) t _
+  · exact decOps_nall (qin_qp _) (qin_rp _ _) (QB.deqOps (incOps_nall (qin_qp _) (qin_rp _ _) h t none) t) t none
+  · exact decOps_nall (qin_qp _) (qin_rp _ _) (setLast_nall (qin_qp _) h _ _ _ _) t _
 
 theorem QB.mono {b b' : Nat} {ts : TState} (h : QB b ts) (hb : b ≤ b') : QB b' ts :=
   fun n hn o ho => Nat.lt_of_lt_of_le (h n hn o ho) hb
@@ -139,9 +139,9 @@ theorem PrioOK.unparkTree (q : ScqId) (w : WId) (h : PrioOK ts) : PrioOK (ts.unp
 theorem PrioOK.parkTree (q : ScqId) (w : WId) (h : PrioOK ts) : PrioOK (ts.parkTree q w) :=
   parkTree_nall (nodeOK_qp _) h q w
 theorem PrioOK.incOps (t : Task) (k : WKey) (h : PrioOK ts) : PrioOK (ts.incOps t k) :=
-  incOps_nall (nodeOK_qp _) h t k
+  incOps_nall (nodeOK_qp _) (nodeOK_rp _) h t k
 theorem PrioOK.decOps (t : Task) (k : WKey) (h : PrioOK ts) : PrioOK (ts.decOps t k) :=
-  decOps_nall (nodeOK_qp _) h t k
+  decOps_nall (nodeOK_qp _) (nodeOK_rp _) h t k
 theorem PrioOK.clearLast (q : ScqId) (w : WId) (h : PrioOK ts) : PrioOK (ts.clearLast q w) :=
   clearLast_nall (nodeOK_qp _) h q w
 theorem PrioOK.setLast (tq q : ScqId) (w : WId) (p : List Nat) (h : PrioOK ts) : PrioOK (ts.setLast tq q w p) :=
@@ -151,7 +151,7 @@ theorem PrioOK.createOps (t : Task) (h : PrioOK ts) : PrioOK (ts.createOps t) :=
 theorem PrioOK.create (q : ScqId) (p : List Nat) (h : PrioOK ts) : PrioOK (ts.create q p) :=
   create_nall (nodeOK_qp _) h q p
 theorem PrioOK.assignTree (w : Worker) (t : Task) (r : Nat) (h : PrioOK ts) : PrioOK (ts.assignTree w t r) :=
-  assignTree_nall (nodeOK_qp _) h w t r
+  assignTree_nall (nodeOK_qp _) (nodeOK_rp _) h w t r
 theorem PrioOK.dropScqTree (q : ScqId) (h : PrioOK ts) : PrioOK (ts.dropScqTree q) :=
   dropScqTree_nall h q
 theorem PrioOK.dropWorkerTree (q : ScqId) (w : WId) (h : PrioOK ts) : PrioOK (ts.dropWorkerTree q w) :=
@@ -187,7 +187,7 @@ theorem PrioOK.removeOpTree (t : Task) (o : Nat) (h : PrioOK ts) : PrioOK (ts.re
   unfold TState.removeOpTree
   split
   · exact h
-  · exact NAll.decExec (P := NodeOK ts.prioOf) h (nodeOK_qp _) _ _ _ _
+  · exact NAll.decExecR (P := NodeOK ts.prioOf) h (nodeOK_qp _) (nodeOK_rp _) _ _ _ _ _
   · exact NAll.pruneChain (P := NodeOK ts.prioOf) _ _ (removeQueuedOp_prio h _ _ _)
 
 theorem PrioOK.tTerminateOne (w : Worker) (h : PrioOK ts) : PrioOK (tTerminateOne ts w) := by
